@@ -392,9 +392,10 @@ impl Prop for C18 {
         // (found by the thorough fuzz sweep at seed 1: an unbounded override made the HARNESS
         // allocate 70 GB; see DESIGN section 9)
         if let Some((c, r)) = k.big {
-            // (a view adds margins to BOTH dimensions: (3.6e9, 0) passed a product-only bound and
+            // (byte-level fuzzing explores structure; the native tiers cover the megabyte documents.
+            // A view adds margins to BOTH dimensions: (3.6e9, 0) passed a product-only bound and
             // the harness then built a 3.6e9 x 3 parent)
-            if (c as u64 + 8) * (r as u64 + 8) > 400_000 {
+            if (c as u128 + 8) * (r as u128 + 8) > 6_000 {
                 k.big = None;
             }
         }
